@@ -42,9 +42,9 @@ def ite_key_checks(ctx):
         gen_and_replay(ctx, "GenIte", cfg, "itevec", "Ite::new on all triples of 2-variable functions, order %s" % o, extra_replay=["--nv", 2])
     orders = ORDERS3 if not ctx.quick else [ORDERS3[ctx.seed % 6], ORDERS3[(ctx.seed + 3) % 6]]
     for o in orders:
-        if not ctx.quick:
-            model_check(ctx, "MC_RobddAlgo", "MC_RobddAlgo_3_%s.cfg" % o, "KeySound / CondRec for all 16.7M triples of 3-variable functions, order %s" % o,
-                        workers=16, timeout=3000, xmx="8g")
+        if not ctx.quick or o == orders[0]:
+            model_check(ctx, "MC_RobddAlgo", "MC_RobddAlgo_3_%s.cfg" % o, "KeySound / IteRec / CondRec for all 16.7M triples of 3-variable functions, order %s" % o,
+                        workers=12, timeout=3000, xmx="8g")
         cfg = mkcfg(ctx, "GenIte_3_%s.cfg" % o, "SPECIFICATION Spec\nCONSTANTS\n  NV = 3\n  Ord <- Ord%s\n  Sample = %d\n  Seed = %d\nCHECK_DEADLOCK FALSE\n"
                     % (o, 64 if ctx.quick else 8, ctx.seed % (64 if ctx.quick else 8)))
         gen_and_replay(ctx, "GenIte", cfg, "itevec", "Ite::new on sampled triples of 3-variable functions, order %s" % o, extra_replay=["--nv", 3], timeout=1500)
@@ -186,7 +186,30 @@ def C07(ctx):
     record_and_validate(ctx, td_jobs(ctx, 3 if ctx.quick else 16, 120), "TraceTopDown", "TraceTopDown_C07.cfg")
 
 
+ORDERS4 = ["1234", "3142", "4321", "2413"]
+
+
+def smooth_model(ctx):
+    """SmoothAlgo: smooth_helper (as repaired) keeps the function, tests the first n levels once and in order on every
+    path and therefore counts exactly under arbitrary weights - all functions x all n, per order; the helper as originally
+    coded (D2) must fail; and every (f, n, order) behaviour of the model is reproduced by the real smooth()."""
+    o3 = ORDERS3 if not ctx.quick else [ORDERS3[ctx.seed % 6], ORDERS3[(ctx.seed + 2) % 6], ORDERS3[(ctx.seed + 4) % 6]]
+    for o in o3:
+        model_check(ctx, "MC_SmoothAlgo", "MC_SmoothAlgo_3_%s.cfg" % o, "smooth_helper: all 256 functions of 3 variables x n = 0..3, order %s" % o, workers=2)
+        cfg = mkcfg(ctx, "GenSmooth_3_%s.cfg" % o, "SPECIFICATION Spec\nCONSTANTS\n  NV = 3\n  Ord <- Ord%s\n  AsCoded = FALSE\n  Sample = 1\n  Seed = 0\nCHECK_DEADLOCK FALSE\n" % o)
+        gen_and_replay(ctx, "GenSmooth", cfg, "smoothvec", "smooth(f, n) for all functions of 3 variables, n = 0..3, order %s" % o, extra_replay=["--nv", 3])
+    model_check(ctx, "MC_SmoothAlgo", "MC_SmoothAlgo_ascoded.cfg", "regression: smooth_helper as originally coded (D2) skips levels", workers=2, expect_violation=True)
+    for o in (ORDERS4 if not ctx.quick else [ORDERS4[ctx.seed % 4]]):
+        if not ctx.quick:
+            model_check(ctx, "MC_SmoothAlgo", "MC_SmoothAlgo_4_%s.cfg" % o, "smooth_helper: all 65 536 functions of 4 variables x n = 0..4, order %s" % o, workers=8, timeout=1800)
+        cfg = mkcfg(ctx, "GenSmooth_4_%s.cfg" % o, "SPECIFICATION Spec\nCONSTANTS\n  NV = 4\n  Ord <- Ord%s\n  AsCoded = FALSE\n  Sample = %d\n  Seed = %d\nCHECK_DEADLOCK FALSE\n"
+                    % (o, 64 if ctx.quick else 4, ctx.seed))
+        gen_and_replay(ctx, "GenSmooth", cfg, "smoothvec", "smooth(f, n) for 1/%d of the functions of 4 variables, n = 0..4, order %s" % (64 if ctx.quick else 4, o),
+                       extra_replay=["--nv", 4], timeout=1500)
+
+
 def C08(ctx):
+    smooth_model(ctx)
     _bdd_family(ctx, "c08", "TraceBdd_C08.cfg")
 
 
@@ -247,8 +270,11 @@ def C09(ctx):
                         "TraceUnitProp", "TraceUnitProp.cfg", chunks=6 if ctx.quick else 16, extra=["--nv", 3], timeout=2400)
     n = 6 if ctx.quick else 40
     segs = 40 if ctx.quick else 60
+    # odd-numbered traces: clauses of 3..5 distinct variables and an adversarial driver that falsifies the open literals of
+    # not-yet-satisfied clauses one by one (every clause is driven to unit through watched and unwatched literals alike)
     record_and_validate(ctx, [("sat_%d" % i, ["record", "sat", "--seed", ctx.seed * 1000 + i, "--segments", segs, "--len", 40,
-                                              "--nmax", 5 + (i % 2)]) for i in range(n)], "TraceUnitProp", "TraceUnitProp.cfg")
+                                              "--nmax", 5 + (i % 2)] + (["--attack", 1, "--wide", 1, "--nmax", 6] if i % 2 else []))
+                              for i in range(n)], "TraceUnitProp", "TraceUnitProp.cfg")
 
 
 def td_jobs(ctx, n, segs, nmax=5):
